@@ -18,7 +18,7 @@ func init() {
 		ID:    "C03",
 		Level: "exploration",
 		Rule: "seeded scenarios: argument maps generated first (nested maps/lists/strings/ints/floats/bytes), policies of every statement kind generated over them inside the unambiguous fragment (every selector resolves; truth of every statement fixed by the reference evaluator), distributed over the links in every pattern (only root / only leaf / all links / last statement of last link ...), then 0..3 statements falsified at chosen (link, statement) positions. " +
-			"Oracles: (1) allowed => every statement of every link is true on the checked arguments; (2) monotonicity pairs: a denied chain stays denied after adding a statement to a link or a conforming link carrying a policy; (3) hook: the verdict follows the arguments the hook returns (both directions; returned maps: satisfying, violating, empty, strict subset), the hook receives the token's arguments, a hook error denies. " +
+			"A second family leaves that fragment: policies with missing / optional selectors and quantifiers over lists of heterogeneous elements (soundness only, strong three-valued reading: a false element under all / a false operand of and denies whatever is unresolved next to it). Oracles: (1) allowed => every statement of every link is true on the checked arguments; (2) monotonicity pairs: a denied chain stays denied after adding a statement to a link or a conforming link carrying a policy; (3) hook: the verdict follows the arguments the hook returns (both directions; returned maps: satisfying, violating, empty, strict subset), the hook receives the token's arguments, a hook error denies. " +
 			"non-trivial = at least one policy statement; distinct = (n, statement kinds per link, falsified positions, hook mode).",
 		Assumptions: []string{
 			"reference evaluator ref.Eval (three-valued, no short-circuit) fixes the truth of every statement; only policies whose every selector resolves on the arguments are generated",
@@ -29,7 +29,7 @@ func init() {
 		MinEvals:    floor(3200, 110000),
 		MinDistinct: floor(1500, 40000),
 		RequiredCells: func(string) []string {
-			cells := []string{"hook/returns-satisfying", "hook/returns-violating", "hook/returns-empty", "hook/returns-subset", "hook/error", "hook/sees-token-args", "mono/add-statement", "mono/add-link", "pattern/only-root", "pattern/only-leaf", "all-true"}
+			cells := []string{"heterogeneous", "heterogeneous/some-statement-false", "hook/returns-satisfying", "hook/returns-violating", "hook/returns-empty", "hook/returns-subset", "hook/error", "hook/sees-token-args", "mono/add-statement", "mono/add-link", "pattern/only-root", "pattern/only-leaf", "all-true"}
 			for _, lp := range []string{"first", "middle", "last"} {
 				for _, sp := range []string{"first", "middle", "last", "only"} {
 					cells = append(cells, "false/link="+lp+"/stmt="+sp)
@@ -130,6 +130,7 @@ func kindsPerLink(s *chain.Scenario) string {
 }
 
 func runC03(w *mon.W) {
+	c03Heterogeneous(w)
 	r := w.Rng
 	total := w.Share(w.Pick(3500, 100000))
 	for it := 0; it < total; it++ {
@@ -422,6 +423,73 @@ func runC03(w *mon.W) {
 		}
 	}
 }
+
+// c03Heterogeneous: policies whose selectors may be missing or optional, over argument
+// lists of heterogeneous elements (some lacking the selected fields). Soundness only: if
+// some statement of some link is false under the strong three-valued reading, the
+// invocation must be denied.
+func c03Heterogeneous(w *mon.W) {
+	r := w.Rng
+	total := w.Share(w.Pick(2500, 60000))
+	for it := 0; it < total; it++ {
+		n := 1 + r.IntN(3)
+		s := chain.Conformant(r, n, 0)
+		d := c11Data(r)
+		for i := range d.M {
+			if d.M[i].V.K == ref.KNull {
+				d.M[i].V = ref.List(ref.Null()) // (a top-level null cannot be transported: K4)
+			}
+		}
+		s.Args = d
+		anyFalse := ""
+		for k := range s.Links {
+			for j := 0; j < r.IntN(3); j++ {
+				st := c11Stmt(r, d, 3, false)
+				if hasOutOfRangeInt(st.ToV()) {
+					continue
+				}
+				s.Links[k].Pol = append(s.Links[k].Pol, st)
+				if ref.EvalK(st, d) == ref.False && anyFalse == "" {
+					anyFalse = fmt.Sprintf("statement %d of link %d: %s", len(s.Links[k].Pol)-1, k, st)
+				}
+			}
+			s.Links[k].PolIPLD = r.IntN(2) == 0
+		}
+		s.Wire = r.IntN(3)
+		b, err := s.Build(r)
+		if err != nil {
+			w.Count("heterogeneous-scenario-not-realisable", 1)
+			continue
+		}
+		var e error
+		pi := mon.Guard(func() { e = allowed(b.Inv, b.Loader, it%3 == 0) })
+		w.Eval(1)
+		if pi != nil {
+			continue
+		}
+		w.Cover("heterogeneous")
+		if anyFalse != "" {
+			w.Cover("heterogeneous/some-statement-false")
+			w.Distinct("het", s.Args.String(), kindsPerLink(s), anyFalse)
+		}
+		if e == nil && anyFalse != "" {
+			d := s.Describe()
+			d["false_statement"] = anyFalse
+			w.Violate("unsound/heterogeneous/"+falseKind(anyFalse), fmt.Sprintf("ExecutionAllowed = nil although %s is false on the arguments %s (whatever its unresolved operands)", anyFalse, s.Args), d)
+		}
+	}
+}
+
+func falseKind(desc string) string {
+	for _, k := range []string{`["all"`, `["any"`, `["and"`, `["or"`, `["not"`, `["like"`} {
+		if i := indexOf(desc, ": "+k); i >= 0 {
+			return k[2 : len(k)-1]
+		}
+	}
+	return "leaf"
+}
+
+func hasOutOfRangeInt(v ref.V) bool { return !intsInRange(v) }
 
 func containsKind(s ref.Stmt, k string) bool {
 	if s.Kind == k {
